@@ -202,6 +202,29 @@ func (e *Env) state() *State { return e.cur }
 
 func (e *Env) lookupIdent(name string) (Val, bool) {
 	if v, ok := e.vars[name]; ok {
+		// a parameter that the loop reassigns: inside a clause of that loop the name means the loop-carried value
+		// (the entry value is old(name))
+		if e.fr != nil && e.header != nil {
+			for _, p := range e.fr.fn.Params {
+				if p.Name() != name {
+					continue
+				}
+				if pv, have := e.fr.vals[p]; !have || pv.T != v.T {
+					break
+				}
+				for _, in := range e.header.Instrs {
+					phi, ok := in.(*ssa.Phi)
+					if !ok {
+						break
+					}
+					if phi.Comment == name {
+						if hv, ok := e.fr.vals[phi]; ok {
+							return hv, true
+						}
+					}
+				}
+			}
+		}
 		return v, true
 	}
 	if e.fr != nil {
@@ -407,6 +430,7 @@ func (e *Env) tr(x Expr) Val {
 		}
 		sub := e.clone()
 		sub.cur = e.old
+		sub.header = nil
 		return sub.tr(n.X)
 	case *ELet:
 		v := e.tr(n.V)
